@@ -11,7 +11,8 @@ import Operon.Model.Lysosome
   theorems `c13_translation_agrees_*` (Props/C13.lean) say: translated method on `conc s` = `conc` of the
   hand-written step on `s`, with the same return value.
 
-  Everything the generated code may mention is defined here: Python slices, truthiness, `dict.update`, a filter
+  Everything the generated code may mention is defined here: Python slices, truthiness, `dict.update` (which raises on
+  a value it cannot merge, after merging a prefix), a filter
   whose test may raise, the environment's digester table and callback.
 -/
 
@@ -82,12 +83,30 @@ def pyFilterM {α : Type} (p : α → Option Bool) : List α → Option (List α
       | none => none
       | some r => some (if b then x :: r else r)
 
-/-- what looking the item's type up in the digester table and calling the entry does: the returned dict (keys with
+/-- a value handed back by a digester (foreign code: not necessarily a dict) -/
+inductive PyVal where
+  | dict (kvs : List (Nat × Item))          -- anything `dict.update` merges completely; `[]` = one of the falsy results
+  | unmergeable (kvs : List (Nat × Item))   -- truthy; `dict.update` raises on it after merging `kvs`
+  deriving Repr, DecidableEq, Inhabited
+
+/-- `if result:` -/
+def PyVal.truthy : PyVal → Bool
+  | .dict kvs => !kvs.isEmpty
+  | .unmergeable _ => true
+
+/-- `d.update(result)` on a local dict: the dict afterwards (mutated in place, also when the call raises part-way) and
+    whether it raised -/
+def pyDictUpdateM (d : List (Nat × Item)) : PyVal → List (Nat × Item) × Bool
+  | .dict kvs => (dictUpdate d kvs, false)
+  | .unmergeable kvs => (dictUpdate d kvs, true)
+
+/-- what looking the item's type up in the digester table and calling the entry does: the returned value (keys with
     the ghost source item) or `none` = it raised; and the `on_toxic` calls made on the way -/
-def pyCallDigester (cfg : Cfg) (it : Item) : Option (List (Nat × Item)) × List Item :=
+def pyCallDigester (cfg : Cfg) (it : Item) : Option PyVal × List Item :=
   (match (digestOne cfg it).1 with
-    | .ret ks => some (ks.map fun k => (k, it))
-    | .raise => none,
+    | .ret ks => some (.dict (ks.map fun k => (k, it)))
+    | .raise => none
+    | .bad ks => some (.unmergeable (ks.map fun k => (k, it))),
    if (digestOne cfg it).2 then [it] else [])
 
 /-- `self.on_toxic(w)` for an installed callback: `true` = it returned, `false` = it raised -/
